@@ -442,6 +442,10 @@ pub fn run(r: &Report) {
         // one scenario lets the reader provide a 2 GiB buffer (declared length 2^31 under a limit of u32::MAX): the
         // emergency cap moves out of the way, the per-call bound (2 x largest admissible frame + 4096) stays
         mcx::alloc::CAP.store(5 << 30, std::sync::atomic::Ordering::SeqCst);
+        // .. and zero-filling 2 GiB can take seconds on a loaded machine: one execution may be silent for longer
+        if std::env::var("VERIF_HANG_SECS").is_err() {
+            std::env::set_var("VERIF_HANG_SECS", "180");
+        }
     }
     let (rs, rint, rbound) = reader_scenarios(r.tier);
     r.space("reader-fragmentation", true, &rbound, 3);
